@@ -683,6 +683,11 @@ func ruleNilArgs(w *World, r *Report, rule string) {
 					if po == nil || !nilTestsParam(h, po) {
 						continue
 					}
+					// a checking helper reports through an error result
+					hs := h.Obj.Type().(*types.Signature)
+					if hs.Results().Len() == 0 || !isErrorType(hs.Results().At(hs.Results().Len()-1).Type()) {
+						continue
+					}
 					tracked[po] = true
 					helperFns[h] = true
 					argOfHelper[id] = true
